@@ -5,7 +5,7 @@ EXTENDS PoolRun, Json
 
 Base == [n |-> 2, t |-> 2, shared |-> TRUE, ammo |-> 3, provider |-> "ok", aggregator |-> "ok", warm |-> "none",
          gunFail |-> -1, bindFail |-> -1, schedFail |-> -1, panicInst |-> -1, panicShot |-> -1,
-         closable |-> TRUE, ek |-> "plain", long |-> FALSE, slow |-> FALSE]
+         closable |-> TRUE, ek |-> "plain", long |-> FALSE, slow |-> FALSE, block |-> "none"]
 
 \* run shapes: how the run would end without a fault
 Shapes == <<
@@ -72,8 +72,6 @@ LivePlansQ == {pl \in Plans1 : ~pl.cancel /\ pl.pools[1].shape = "sched-end"
 \* one small pool with a user cancel at any step (liveness with cancel; promptness of a cancelled Run)
 PlansSC == { [id |-> 3000 + f, pools |-> <<SmallPlan(f)>>, cancel |-> TRUE] : f \in {1, 3, 5, 6, 10} }
 LivePlansC == {pl \in Plans1 : pl.pools[1].fault \in {"none", "agg-drop-on-cancel", "prov-mid-run"} /\ pl.pools[1].shape = "sched-end"}
-PromptPlans == PlansSC
-PromptPlansQ == {pl \in PlansSC : pl.id = 3001}
 Plans2NC == {pl \in Plans2 : ~pl.cancel}
 \* two pools, exhaustive (each two-pool plan has some 10^5..10^6 states): the late aggregator error in the first pool,
 \* the shared-schedule failure in the second, and both at once
@@ -127,7 +125,31 @@ PlansLong == PlansL \cup PlansLC \cup PlansLN
 LongQuick == {pl \in PlansLong : pl.id = 5011}                    \* newgun-warmup / long
 LongThorough == {pl \in PlansLong : pl.id \in {5007, 5008, 5011, 5012}}   \* + sched-shared, either order
 LongNeg == LongQuick
-AllPlans == PlansSC \cup PlansEK \cup Plans1 \cup Plans2 \cup Plans2b \cup PlansLong
+(* ---- a component call that does not return before Engine.Run has returned (added after seeded C05-7) ---------- *)
+\* One context-unaware, slow call per pool (plan field block, see PoolRun.tla): the driver's mock blocks in it until
+\* Run has returned.  Such a run ends only through the caller's cancel (the driver cancels when the mock has entered
+\* the call), and the cancelled Run must return without waiting for it.
+BlockDefs == <<
+  [block |-> "newgun-warmup", fault |-> "block-newgun-warmup"],
+  [block |-> "warmup", fault |-> "block-warmup", warm |-> "ok"],
+  [block |-> "sched-shared", fault |-> "block-sched-shared"],
+  [block |-> "newgun-first", fault |-> "block-newgun-first"],
+  [block |-> "bind-first", fault |-> "block-bind-first"],
+  [block |-> "shoot", fault |-> "block-shoot"]
+>>
+BlockPlan(k) == BlockDefs[k] @@ [shape |-> "blocked"] @@ Small @@ Base
+PlansB1 == { [id |-> 8000 + k, pools |-> <<BlockPlan(k)>>, cancel |-> TRUE] : k \in 1..Len(BlockDefs) }
+\* two pools: the other one would run for an hour (it must be stopped as well) / is an ordinary short one
+PlansB2 == { [id |-> 8010 + k, pools |-> <<BlockPlan(k), LongPool>>, cancel |-> TRUE] : k \in 1..3 }
+           \cup { [id |-> 8020 + k, pools |-> <<SmallPlan(1), BlockPlan(k)>>, cancel |-> TRUE] : k \in 1..Len(BlockDefs) }
+PlansB == PlansB1 \cup PlansB2
+BlockSync == {pl \in PlansB1 : pl.id \in {8001, 8002, 8003}}
+BlockQuick == {pl \in PlansB1 : pl.id = 8002}
+BlockLive == {pl \in PlansB1 : pl.id \in {8001, 8003, 8004}}
+BlockThorough == PlansB1 \cup {pl \in PlansB2 : pl.id \in {8011, 8013, 8021, 8022, 8023, 8024, 8026}}
+PromptPlans == PlansSC \cup PlansB1 \cup {pl \in PlansB2 : pl.id \in {8021, 8022, 8023}}
+PromptPlansQ == {pl \in PlansSC : pl.id = 3001}
+AllPlans == PlansSC \cup PlansEK \cup Plans1 \cup Plans2 \cup Plans2b \cup PlansLong \cup PlansB
 OnePlan == {pl \in Plans1 : pl.id = 1}
 \* negative controls need only the plans that trigger the defect
 SchedSharedPlans == {pl \in Plans1 : pl.pools[1].fault = "sched-shared"}
